@@ -487,3 +487,19 @@ pub fn ser_is_plain_safe(s: &str) -> bool {
 pub fn ser_is_plain_value_safe(s: &str, yaml_12: bool, in_flow: bool) -> bool {
     crate::ser_quoting::is_plain_value_safe(s, yaml_12, in_flow)
 }
+
+// ---- C19: the robotics expression evaluator ----
+
+/// `tag`: 0 none, 1 degrees, 2 radians, 3 timestamp. Bits of the f64 result, or None for an error.
+#[cfg(feature = "robotics")]
+pub fn robotics_eval(s: &str, tag: u8) -> Option<u64> {
+    let tag = match tag {
+        1 => SfTag::Degrees,
+        2 => SfTag::Radians,
+        3 => SfTag::TimeStamp,
+        _ => SfTag::None,
+    };
+    crate::robotics::parse_yaml12_float_angle_converting::<f64>(s, crate::Location::UNKNOWN, tag)
+        .ok()
+        .map(f64::to_bits)
+}
